@@ -203,6 +203,8 @@ impl<const N: usize> Ex<N> {
             self.fail(out.own, format!("{} returned {:?}, model says {:?}", st.op.name(), got, want));
         }
         if let Some(t) = ret {
+            // the moved-out element's bit copy stays behind in the slot that just became free
+            self.stats.probe(Probe::StaleCopyPresent);
             self.check_returned(&t, out.own);
             self.adopt(t);
         }
@@ -285,6 +287,7 @@ impl<const N: usize> Ex<N> {
         out.argclass = idclass(n, len);
         out.nontrivial = n < len;
         let op = st.op;
+        let (pstart, _) = self.bufs[x].as_ref().unwrap().verif_layout();
         let b = self.bufs[x].as_mut().unwrap();
         let r = crate::elem::window(|| match op {
             Op::TruncateBack => b.truncate_back(n),
@@ -292,6 +295,14 @@ impl<const N: usize> Ex<N> {
             _ => b.clear(),
         });
         self.allocs += crate::alloc::take_op_allocs();
+        if let (Some((FaultKind::Drop, k)), true, true) = (st.fault, N > 0 && n < len, H.with(|h| h.borrow().fired)) {
+            // which physical segment did the panicking destructor's element lie in?
+            let from = if op == Op::TruncateFront { pstart } else { (pstart + n) % N };
+            let first_seg = N - from;
+            if (len - n) > first_seg && k as usize > first_seg {
+                self.stats.probe(Probe::DropPanicSecondSegment);
+            }
+        }
         if self.settle(r, false, out.own).is_some() {
             let m = &mut self.models[x];
             if n < len {
@@ -424,6 +435,7 @@ impl<const N: usize> Ex<N> {
         } else if k > N - len {
             self.stats.probe(Probe::ExtendSliceEvicts);
         }
+        let pre_start = self.bufs[x].as_ref().unwrap().verif_layout().0;
         {
             let (start, size) = self.bufs[x].as_ref().unwrap().verif_layout();
             if N > 0 && size < N && start > 0 && start + size < N {
@@ -436,9 +448,19 @@ impl<const N: usize> Ex<N> {
         let r = crate::elem::window(|| b.extend_from_slice(&src));
         self.allocs += crate::alloc::take_op_allocs();
         let ok = self.settle(r, false, out.own).is_some();
-        if self.faulted.is_some() {
-            let (a, _) = self.bufs[x].as_ref().unwrap().verif_layout();
-            let _ = a;
+        if let (Some((FaultKind::Clone, kf)), true) = (st.fault, H.with(|h| h.borrow().fired)) {
+            // did the panicking clone target the second (wrapped) free segment?
+            if N > 0 && k < N {
+                let size_after_evict = if k < N - len { len } else { N - k };
+                let start_after = (pre_start + (len - size_after_evict)) % N;
+                let end = (start_after + size_after_evict) % N;
+                if end >= start_after && start_after > 0 {
+                    let right = N - end;
+                    if k > right && kf as usize > right {
+                        self.stats.probe(Probe::ClonePanicSecondSegment);
+                    }
+                }
+            }
         }
         drop(src);
         if !ok {
